@@ -306,7 +306,9 @@ def _p(shape, inputs):
     pm = shape['pmode']
     iw = 0.0 if pm == 'ins0' else float(inputs.get('iw_p', 0.5))
     dw = 0.0 if pm == 'del0' else float(inputs.get('dw_p', 0.5))
-    return iw, dw
+    # JSON cannot carry infinities; the code clamps probabilities to [0, 1], so a huge finite value is equivalent
+    fin = lambda x: max(min(x, 1e300), -1e300) if x == x else x
+    return fin(iw), fin(dw)
 
 
 def _call(native, shape, inputs, seed, file_idx=None):
